@@ -263,13 +263,35 @@ func judge(c engine.Case) engine.Outcome {
 				break
 			}
 		}
-		return engine.Fail("c06."+kindOf(cur)+".mark-lost", "source: %s\nminimal sub-expression: %s\n%s", d.Src, ex.Canon(cur), leak)
+		return engine.Fail("c06."+leakKind(cur, name)+".mark-lost", "source: %s\nminimal sub-expression: %s\n%s", d.Src, ex.Canon(cur), leak)
 	}
 	counters.Add("dependent_pairs", int64(total))
 	if total == 0 {
 		return engine.Pass("")
 	}
 	return engine.Pass(kindOf(d.E) + ":" + strings.Join(pool.FreeVars(d.E), ",") + fmt.Sprint(total))
+}
+
+// leakKind names the construct of a localised leak; indexing an object with
+// a marked key is distinguished from the other index forms (hcl.Index has a
+// separate code path for it).
+func leakKind(cur *ex.E, name string) string {
+	k := kindOf(cur)
+	if cur.K == "idx" && len(cur.A) == 2 && pool.Closed(cur.A[0]) {
+		inKey := false
+		for _, n := range pool.FreeVars(cur.A[1]) {
+			if n == name {
+				inKey = true
+			}
+		}
+		if ce := parse(cur.A[0]); ce != nil && inKey {
+			v, diags := ce.Value(&hcl.EvalContext{Variables: pool.Vars, Functions: pool.ImplFuncs()})
+			if !diags.HasErrors() && v.Type().IsObjectType() {
+				return "idx-object-marked-key"
+			}
+		}
+	}
+	return k
 }
 
 func main() {
